@@ -120,9 +120,17 @@ S2 == ObsWorld(Rec[l].obs)          \* the observed next state
 DirtyNow(s) == {w \in DOMAIN s.w : \E t \in DOMAIN s.w[w].txs :
                    /\ s.w[w].txs[t].ty \in {"TxSentCancelled", "TxReceivedCancelled"}
                    /\ s.w[w].txs[t].slate \in (s.pool \cup Mined(s)) \cap DOMAIN s.body}
+\* ... or once a transaction is broadcast that spends an output the wallet holds but never reserved
+\* (the caller skipped tx_lock_outputs after process_invoice_tx, or posts a slate whose reservation
+\* was released): the wallet cannot learn of that spend by refreshing - a scan repairs it.
+\* Judged at the moment of the broadcast only, never on later states.
+UnreservedSpend(s, sl) == {w \in DOMAIN s.w : \E k \in DOMAIN s.w[w].outs :
+                            /\ OID(s, w, k) \in s.body[sl].ins
+                            /\ s.w[w].outs[k].st \notin {"Locked", "Spent"}}
+PostDirty(s) == IF E.ev = "post" /\ E.res = "ok" /\ E.sl \in DOMAIN s.body THEN UnreservedSpend(s, E.sl) ELSE {}
 Step(hv2) == /\ l' = l + 1 /\ st' = S2 /\ hv' = HvIssued(hv2, S2)
              /\ StateMonitors(E, S2, hv2) /\ NoPanic(E)
-             /\ aux' = [aux EXCEPT !.dirty = IF E.ev = "scan" /\ E.res = "ok" THEN (@ \ {E.w}) ELSE @ \cup DirtyNow(S2),
+             /\ aux' = [aux EXCEPT !.dirty = IF E.ev = "scan" /\ E.res = "ok" THEN (@ \ {E.w}) ELSE @ \cup DirtyNow(S2) \cup PostDirty(S2),
                                    !.pre = st, !.hvpre = hv, !.ope = E,
                                    \* a restored wallet is "fresh" until its first successful scan / refresh
                                    !.fresh = IF E.ev \in {"scan", "refresh"} /\ E.res = "ok" THEN @ \ {E.w} ELSE @]
